@@ -141,6 +141,9 @@ class ThreadLine(mt.Thread):
         except Exception as e:
             self._exception = e
             self._traceback = format_tb(e.__traceback__)
+        except BaseException as e:
+            #a SystemExit (or the like) raised by what the line reads would otherwise end the thread without a trace
+            self._exception = e
         self._poisoned  = hasattr(self._line[0],'_poisoned') and self._line[0]._poisoned
 
     @property
